@@ -134,6 +134,60 @@ CLAIMED = {
              "exactly at the packet end. SNMP and use-after-free/abort freedom are not decided.",
         technique="LOCKSTEP/BUDGET path-sensitive window accounting + CFG dominance + array-size facts",
         design="5/C39"),
+    "C22": dict(
+        text="The character classes the request-line parser uses, folded from their defining source expressions, equal the RFC 9110/9112/3986 sets "
+             "(TCHAR, DIGIT, ALPHA, HEXDIG, unreserved, URI characters, strict request-target set, strict delimiter {SP}, relaxed delimiters "
+             "{SP,HTAB,VT,FF,CR}; the relaxed target set admits no other control byte); method = prefix(TCHAR, 32) + delimiter, URI = "
+             "prefix(RequestTargetCharacters()); strict mode accepts exactly one delimiter and exactly one CR; parseRequestFirstLine returns 1 only "
+             "after all four field parsers succeeded, the version delimiter was checked unless HTTP/0.9, and nothing is left after the URI. "
+             "Full language equivalence with the ABNF is not decided.",
+        technique="constant folding of CharacterSet-defining expressions (ENUMTABLE) against RFC oracle sets + CFG dominance with history facts + guard intervals",
+        design="5/C22"),
+    "C05": dict(
+        text="The pipeline list is a strict FIFO (only push_back in add, pop_front in popMe guarded by which==front; whole-program callers confirmed); "
+             "a response is handed to the connection only for the stream equal to pipeline.front() with no 1xx pending, the HTTP/1 sender writes only "
+             "through pipeline.front(), deferred replies are replayed only for the head stream with its own saved parameters and at most one deferral "
+             "per stream; new requests are parsed only below the prefetch limit. Which body belongs to which response, the FTP server path and async "
+             "re-entrancy between gates are not decided.",
+        technique="whole-program who-calls/who-writes + operation table on one member + CFG dominance and definition provenance of call arguments",
+        design="5/C05"),
+    "C06": dict(
+        text="Wiring of the blind relay: every copy/copyRead call uses one of the two mirrored (from,to,handler) triples with the byte count accepted "
+             "by keepGoingAfterRead, copy() writes exactly from.buf/len, only copy() and the CONNECT-200 writer write to tunnel sockets, a buffer is "
+             "read into only when empty and refilled only after its write was accounted in full, data is relayed only after a successful non-empty "
+             "read to an open peer, and on EOF/closure the peer is closed only when nothing is queued / no write is pending. Payload equality and "
+             "ordering under segmentation are not decided.",
+        technique="call-argument table (mirrored sibling directions) + whole-program who-calls/who-writes + CFG dominance/must-pass",
+        design="5/C06"),
+    "C15": dict(
+        text="Http::Stream::buildRangeHeader turns a reply into 206 only for status 200 (decided per StatusCode enumerator) with a known, consistent "
+             "length, no Content-Range, successfully canonised non-complex ranges, a matching If-Range on hits and within the offset limit; otherwise "
+             "ignoreRange(); a 206 always gets Content-Length from prepPartialResponseGeneration and Content-Range/multipart framing. packRange "
+             "appends and accounts exactly lengthToSend() bytes and advances both cursors by it; lengthToSend is bounded by the remaining debt unless "
+             "open-ended. The bytes delivered and canonize() itself are not decided.",
+        technique="CFG dominance with flag-local constant propagation, per-enumerator case exclusion, path-sensitive disjunctions, must-pass, same-variable argument checks",
+        design="5/C15"),
+    "C32": dict(
+        text="On all CFG paths of EscapeSequences()/html_quote(): the table holds a well-formed, pairwise distinct entity for each of < > \" & ' and a "
+             "bounded numeric form for the control/8-bit range; a byte is copied raw only when its own table entry is empty; the output buffer is sized "
+             "strlen*M+1 with M (and the copy bound) >= the longest escape and the cursor advances by the copied length. Reversibility beyond distinct "
+             "well-formed entities is not decided.",
+        technique="must-pass + dominance over the CFG, constant folding of table stores, guard-interval check of the allocation multiplier",
+        design="5/C32"),
+    "C33": dict(
+        text="For every %code case of ErrorState::compileLegacyCode (37 cases + default, flag local propagated) any non-literal value reaches the page only "
+             "through html_quote(), except in the confirmed table {D,g,l,L,O,S,W,NUL,default} where only that entry's confirmed source may go unquoted; "
+             "build.output has no other writers; the FTP listing producer html/URL-escapes every use of entry names and link targets. Template files, "
+             "@Squid{logformat} output and raw unparsed listing lines (server content) are not decided.",
+        technique="per-case switch folding with flag-local constant propagation and path-sensitive taint markers; who-writes; sink whitelist with carrier closure",
+        design="5/C33"),
+    "C34": dict(
+        text="For every Format::Quoting enumerator the record write in Format::assemble is preceded by that enumerator's quoting call; and, decided for each "
+             "of the 256 input byte values over the CFG of QuoteMimeBlob, log_quoted_string, strwordquote and rfc1738_do_escape (with the exact flags "
+             "passed), CR/LF and other control/8-bit bytes and each scheme's escape introducers are never copied raw, CR/LF are written as two-byte "
+             "escapes, and output buffers are sized >= the per-byte expansion. Exactly-one-record and full reversibility are not decided.",
+        technique="enumerator-wise switch folding + must-pass; per-byte concrete branch evaluation (exhaustive over 0..255) on the CFG; expansion bound vs allocation multiplier",
+        design="5/C34"),
 }
 
 NOT_APPLICABLE = {
